@@ -26,6 +26,7 @@ pub const HARNESSES: &[(&str, fn())] = &[
     ("c06_command_abort_a", c06_cancel::c06_command_abort_a),
     ("c06_command_abort_b", c06_cancel::c06_command_abort_b),
     ("c06_aborted_stream_ends", c06_cancel::c06_aborted_stream_ends),
+    ("c06_all_child_abort", c06_cancel::c06_all_child_abort),
     ("c06_abort_from_task_root", c06_cancel::c06_abort_from_task_root),
     ("c06_abort_from_task_spawned", c06_cancel::c06_abort_from_task_spawned),
     ("c09_routing_q1", c09_registry::c09_routing_q1),
@@ -35,6 +36,7 @@ pub const HARNESSES: &[(&str, fn())] = &[
     ("c09_routing_t3", c09_registry::c09_routing_t3),
     ("c09_routing_t4", c09_registry::c09_routing_t4),
     ("c09_routing_t5", c09_registry::c09_routing_t5),
+    ("c12_bad_response_minimal", c09_registry::c12_bad_response_minimal),
     ("c12_bad_response_a", c09_registry::c12_bad_response_a),
     ("c12_bad_response_b", c09_registry::c12_bad_response_b),
     ("c13_registry_forgets_answered", c09_registry::c13_registry_forgets_answered),
@@ -73,6 +75,7 @@ pub const HARNESSES: &[(&str, fn())] = &[
     ("c07_kept_alive_by_other_task", c07_done::c07_kept_alive_by_other_task),
     ("c07_join_handle_wakes", c07_done::c07_join_handle_wakes),
     ("c07_two_woken_tasks", c07_done::c07_two_woken_tasks),
+    ("c07_spawn_abort_join", c07_done::c07_spawn_abort_join),
 ];
 
 #[cfg(test)]
